@@ -16,6 +16,11 @@ def parse_string(input_string):
     entered_blocks = []
     cur_block_body = []
 
+    # (pyparsing expands TABs to blanks before parsing unless told
+    # otherwise: a TAB inside a string literal or a DATA item is a
+    # character of the program)
+    line_rule.parse_with_tabs()
+
     line_loc = 0
     for line in input_string.split('\n'):
         try:
